@@ -855,8 +855,10 @@ def r42(ctx, repo):
 
 
 def _flows_to_events(fn, call):
-    """the constructed object is stored into self._events[...] – directly,
-    through a local name, or inside a local container stored there"""
+    """value flow: the constructed object ends up in the value stored into
+    ``self._events[...]`` - directly, nested in the stored expression
+    (container constructor argument, comprehension), through local names or
+    local containers - on every normal path from its creation to the exit"""
     st = call
     while not isinstance(st, ast.stmt):
         st = st.parent
@@ -866,24 +868,52 @@ def _flows_to_events(fn, call):
     def is_events_store(t):
         return isinstance(t, ast.Subscript) and is_self_attr(
             t.value, "_events")
+
+    def bound(stmt):
+        out = set()
+        for t in stmt.targets:
+            if isinstance(t, ast.Name):
+                out.add(t.id)
+            elif isinstance(t, ast.Subscript) and isinstance(
+                    t.value, ast.Name):
+                out.add(t.value.id)      # container[key] = ...
+            elif isinstance(t, (ast.Tuple, ast.List)):
+                out |= {e.id for e in t.elts if isinstance(e, ast.Name)}
+        return out
     if any(is_events_store(t) for t in st.targets):
         return True
-    names = set()
-    for t in st.targets:
-        if isinstance(t, ast.Name):
-            names.add(t.id)
-        elif isinstance(t, ast.Subscript) and isinstance(t.value, ast.Name):
-            names.add(t.value.id)      # container[key] = Child(...)
-    if not names:
+    carriers = bound(st)
+    if not carriers:
         return False
-    stores = [s for s in walk(fn) if isinstance(s, ast.Assign) and any(
-        is_events_store(t) for t in s.targets) and isinstance(
-        s.value, ast.Name) and s.value.id in names]
+    assigns = [a for a in walk(fn) if isinstance(a, ast.Assign)]
+    changed = True
+    while changed:
+        changed = False
+        for a in assigns:
+            if names_in(a.value) & carriers:
+                new = bound(a) - carriers
+                if new:
+                    carriers |= new
+                    changed = True
+        for c in walk(fn):
+            # container.update(x) / container.append(x) / setdefault
+            if isinstance(c, ast.Call) and isinstance(
+                    c.func, ast.Attribute) and c.func.attr in (
+                    "update", "append", "extend", "setdefault", "add") \
+                    and isinstance(c.func.value, ast.Name) and any(
+                    names_in(x) & carriers for x in list(c.args) + [
+                        k.value for k in c.keywords]):
+                if c.func.value.id not in carriers:
+                    carriers.add(c.func.value.id)
+                    changed = True
+    stores = [a for a in assigns if any(
+        is_events_store(t) for t in a.targets)
+        and names_in(a.value) & carriers]
     if not stores:
         return False
     # on every normal path from the construction to the exit
     cfg = CFG(fn)
-    sid = {i for s in stores for i in cfg.ids_of(s)}
+    sid = {i for a in stores for i in cfg.ids_of(a)}
     return all(cfg.must_pass(lambda n: n.id in sid, src=i,
                              avoid_edge=lambda a, lab, b: lab == "x")
                for i in cfg.ids_of(st))
@@ -1849,4 +1879,38 @@ TWINS = list(TWINS) + [
       "        while ds.format == \"hierarchy\":\n"
       "            ds = ds.hparent\n"
       "            hashes.append(hashobj(ds.filter.all))\n")),
+]
+
+# round-2 refactoring: trace items built by a comprehension and handed to the
+# container constructor
+TWINS = list(TWINS) + [
+    ("trace wrappers built by a dict comprehension", BASE,
+     ("            trdict = ChildTrace()\n"
+      "            for flname in dfn.FLUOR_TRACES:\n"
+      "                if flname in self.hparent[\"trace\"]:\n"
+      "                    trdict[flname] = ChildTraceItem(self, flname)\n"
+      "            self._events[\"trace\"] = trdict\n",
+      "            trace_items = {\n"
+      "                flname: ChildTraceItem(self, flname)\n"
+      "                for flname in dfn.FLUOR_TRACES\n"
+      "                if flname in self.hparent[\"trace\"]\n"
+      "            }\n"
+      "            self._events[\"trace\"] = ChildTrace(trace_items)\n")),
+    ("trace wrappers nested in the stored expression", BASE,
+     ("            trdict = ChildTrace()\n"
+      "            for flname in dfn.FLUOR_TRACES:\n"
+      "                if flname in self.hparent[\"trace\"]:\n"
+      "                    trdict[flname] = ChildTraceItem(self, flname)\n"
+      "            self._events[\"trace\"] = trdict\n",
+      "            self._events[\"trace\"] = ChildTrace({\n"
+      "                flname: ChildTraceItem(self, flname)\n"
+      "                for flname in dfn.FLUOR_TRACES\n"
+      "                if flname in self.hparent[\"trace\"]})\n")),
+]
+
+MUTANTS = list(MUTANTS) + [
+    ("trace wrappers built but kept in an attribute outside the cache", BASE,
+     ("            self._events[\"trace\"] = trdict\n",
+      "            self._trace_items = trdict\n"
+      "            self._events[\"trace\"] = ChildTrace()\n"), "R4.2"),
 ]
